@@ -127,13 +127,17 @@ def gen_entries(rng, cs, store):
         es.append({"host": h, "port": p, "fp": rng.choice(cs)["fp"], "first": "I%d" % len(es), "complete": True})
     if rng.random() < 0.6:        # one defect at a random position
         e = rng.choice(es)
-        d = rng.choice(["missing", "port0", "port70000", "portstr", "badfp", "upperfp", "dup"])
+        d = rng.choice(["missing", "port0", "port70000", "portstr", "badfp", "upperfp", "dup", "fp_lf", "fp_lf2", "fp_short", "fp_space"])
         if d == "missing": e["complete"] = False
         elif d == "port0": e["port"] = 0
         elif d == "port70000": e["port"] = 70000
         elif d == "portstr": e["port"] = "1965"
         elif d == "badfp": e["fp"] = "sha256:xyz"
         elif d == "upperfp": e["fp"] = e["fp"].upper()
+        elif d == "fp_lf": e["fp"] = e["fp"] + "\n"          # accepted: `$` of re.match also matches before a final line feed
+        elif d == "fp_lf2": e["fp"] = e["fp"] + "\n\n"
+        elif d == "fp_short": e["fp"] = e["fp"][:-1]
+        elif d == "fp_space": e["fp"] = e["fp"] + " "
         elif d == "dup": es.append(dict(es[0], first="DUP", fp=rng.choice(cs)["fp"]))
     return es
 
@@ -152,7 +156,7 @@ def gen_op(rng, cs, store):
 
 KILL_SCRIPT = r'''
 import sys, pickle, os
-sys.path.insert(0, "/repo/src"); sys.path.insert(0, %r)
+sys.path.insert(0, __import__("os").path.join(__import__("os").environ.get("NV_REPO", "/repo"), "src")); sys.path.insert(0, %r)
 import logging; logging.disable(logging.CRITICAL)
 import nauyaca.protocol
 import c12, certs as certmod
